@@ -788,10 +788,15 @@ class Gen:
             docs.append({"root": {"r": root}, "via": via})
         nb = nb or r.choice([1, 2, 2, 3])
         nops = nops or r.randint(3, 10)
-        ops, live = [], []
+        ops, live, made = [], [], set()
+
+        def pick_builder():   # mostly builders that have not created a context yet (reuse is the not-asserted zone)
+            fresh = [b for b in live if b not in made]
+            return r.choice(fresh) if fresh and r.random() < 0.85 else r.choice(live)
+
         for _ in range(nops):
             roll = r.random()
-            if not live or (len(live) < nb and roll < 0.2):
+            if not live or (len(live) < nb and (roll < 0.2 or all(b in made for b in live))):
                 b = len(live) + 1
                 live.append(b)
                 ops.append(["new", b, r.choice([-1] + list(range(ndocs))) if level != "lb" else -1])
@@ -800,11 +805,11 @@ class Gen:
             elif roll < 0.5:
                 fd = [d for d in range(ndocs) if docs[d]["via"] == "file"]
                 if level == "lb" and len(fd) >= 2 and r.random() < 0.5:
-                    ops.append(["updn", r.choice(live), r.sample(fd, r.randint(2, min(3, len(fd))))])
+                    ops.append(["updn", pick_builder(), r.sample(fd, r.randint(2, min(3, len(fd))))])
                 else:
-                    ops.append(["upd", r.choice(live), r.randrange(ndocs)])
+                    ops.append(["upd", pick_builder(), r.randrange(ndocs)])
             elif roll < 0.7:
-                b = r.choice(live)
+                b = pick_builder()
                 d = r.randrange(ndocs)
                 if docs[d]["via"] == "file":
                     continue
@@ -818,7 +823,9 @@ class Gen:
                 else:
                     ops.append(["set", b, r.choice(keys), d])
             elif roll < 0.92:
-                ops.append(["create", r.choice(live)])
+                b = pick_builder()
+                made.add(b)
+                ops.append(["create", b])
             else:
                 ops.append(["obs"])
         ops.append(["obs"])
